@@ -188,7 +188,7 @@ class ProxNewton(BaseSolver):
                         print("Early exit")
                     break
 
-            p_obj = datafit.value(y, w, Xw) + penalty.value(w)
+            p_obj = datafit.value(y, w, Xw) + penalty.value(w[:n_features])
             p_objs_out.append(p_obj)
         else:
             warnings.warn(
